@@ -180,7 +180,9 @@ class BaseClient:
         if not line:
             self.stream.close()
             raise ConnectionResetError
-        s = line.decode(encoding=self.encoding).rstrip()
+        # (the line end and blanks before it, nothing else: a no-break space
+        # or a separator at the end of a line is part of its text)
+        s = line.decode(encoding=self.encoding).rstrip(" \t\r\n")
         logger.debug(s)
         return Code(s[:3]), s[3:]
 
